@@ -269,6 +269,38 @@ def hoist_key_optionality_rule(cx, rep, rid):
                "%s:%s" % (f.file, er[0]["line"] if er else f.line), sample={"converter": f.name})
 
 
+def hoist_key_faithful_rule(cx, rep, rid):
+    """A hoist key is the IDENTITY of a sub-validator inside one emitted module: two IR nodes with equal keys share one
+    `direct_hoist_N`.  So the key must carry every payload of the node itself (cloned) or converted by another
+    converter of the table - never a value COMPUTED from the payload by some other function of the compiler: a printer
+    such as `RuntypeUUID::diag_print()` prints the bare name, and the references `a.ts::X` and `b.ts::X` (or `Box<A>`
+    and a type named `Box_A`) get one key - the second type is emitted as the first one's validator (seed C09-q).
+    Decided: inside the converters every call that resolves to a function of the compiler is a converter of the table
+    (its result is a key type, possibly inside a container) or a `Clone::clone`."""
+    F = cx.rs
+    key_adts, convs = hoist_key_converters(F)
+    n = 0
+    for f in sorted(convs, key=lambda x: x.id):
+        bad = []
+        for x in walk(F.hir[f.id]["body"]):
+            if x["k"] not in ("Call", "MethodCall"):
+                continue
+            cal = x.get("resolved") or x.get("callee") or ""
+            fn = F.fns.get(F._callee_gid(f.crate, cal))
+            if fn is None:
+                continue
+            n += 1
+            out = fn.output or ""
+            if fn.impl_trait == "std::clone::Clone" or any(re.search(r"(?<![\w:])%s(?![\w])" % re.escape(k_), out) for k_ in key_adts):
+                continue
+            bad.append((x, fn))
+        rep.ob(rid, "%s/payload-whole" % f.name, not bad,
+               "%s builds a hoist key from a value computed by %s: the key is the identity of the emitted sub-validator, and a computed projection (a printed name, a summary) can coincide for different nodes - e.g. same-named types of two files, or an instantiation and a plain type that print alike - so the second one is emitted as a reference to the first one's validator" % (
+                   f.id, ", ".join(sorted({b[1].id for b in bad}))),
+               "%s:%s" % (f.file, bad[0][0]["line"] if bad else f.line), sample={"converter": f.name})
+    rep.floor(rid, "calls of compiler functions inside the hoist-key converters", n, 12)
+
+
 def run(cx, rep):
     F = cx.rs
     rep.explanation = (
@@ -401,6 +433,9 @@ def run(cx, rep):
                        sample={"converter": f.name, "source": pty, "fields_read": sorted(read)})
     rep.floor("C08.3", "converter arms", n_arms, 26)
     hoist_key_optionality_rule(cx, rep, "C08.3")
+    # ---------------------------------------------------------------- C08.19 (= C09.22)
+    rep.rule("C08.19", "a hoist key carries the payloads of the node whole (cloned or converted by the table's converters), never a computed projection")
+    hoist_key_faithful_rule(cx, rep, "C08.19")
     for i in F.impls:
         if i["self"] in key_adts and i.get("trait") in ("std::cmp::PartialEq", "std::cmp::Ord"):
             rep.ob("C08.3", "derived/%s/%s" % (i["self"].rsplit("::", 1)[-1], i["trait"].rsplit("::", 1)[-1]), bool(i.get("derived")),
